@@ -109,3 +109,5 @@ func init() {
 }
 
 func init() { prop("C04", "C04-R7") }
+
+func init() { prop("C02", "C01-R2") }
